@@ -323,7 +323,7 @@ func TestVerifC07(t *testing.T) {
 			}
 		}
 		// ---- slot-bounded variant (all three epochs loaded only, and each single epoch)
-		if len(loaded) == 3 || len(loaded) == 1 {
+		if len(loaded) >= 1 {
 			var grid []uint64
 			for _, ei := range loaded {
 				base := epochNums[ei] * cargen.SlotsPerEpoch
@@ -368,8 +368,10 @@ func TestVerifC07(t *testing.T) {
 										wantN++
 									}
 								}
-								if wantN != nIn {
-									rec.Count("diag_slot_variant_incomplete", 1) // completeness is C19's business
+								if wantN != nIn && wantN <= 1000 {
+									// "epochs in which the address never appears are skipped": the walk has to go on to the
+									// older epochs, so every in-range transaction of the address must be there (limit 1000)
+									rec.Violation("GsfaReaderMultiepoch.GetBeforeUntilSlot/in-range-transactions-missing", fmt.Sprintf("shape %v epochs %v range [%d,%d): %d transactions returned, %d archived in range", c.Shape, loadedNums, until, before, nIn, wantN), c)
 								}
 								if nIn > 0 {
 									rec.Distinct(fmt.Sprintf("slot/%v/%d%d%d/%d/%d", loadedNums, i, j, k, until, before))
